@@ -49,8 +49,13 @@ def run_property(pid: str, repo_root: Path, tier: str, seed: int, quiet: bool = 
                 else:
                     raise AnalysisError(floor_msg)
     except AnalysisError as e:
-        say(f"ANALYSIS-ERROR property={pid} {e}")
-        return 2, [], res, out
+        # a positive report stands on its own: when a violation had already been found before a later rule lost its anchor,
+        # the violation is reported (exit 1) and the analysis error becomes a warning
+        known0 = load_known_findings()
+        if not any(match_known(f, known0) is None for f in res.findings):
+            say(f"ANALYSIS-ERROR property={pid} {e}")
+            return 2, [], res, out
+        say(f"  warning: analysis incomplete after the violation(s) below: {e}")
     except Exception as e:  # noqa: BLE001
         tb = traceback.format_exc()
         say(f"ANALYSIS-ERROR property={pid} internal error: {e!r}")
